@@ -368,6 +368,25 @@ def _save_paths(ck, p):
                     ck.proved(rule, "path:save_stats:%s" % pretty, f.loc(t["ln"]), "destination derives from Config.stats_path")
                 else:
                     ck.undecided(rule, "path:save_stats:%s" % pretty, f.loc(t["ln"]), "could not trace the destination to Config.stats_path (fields seen: %s)" % sorted(fields))
+        # every other file-system call of save_stats that creates or changes a file: its destination is the configured path too
+        DEST = {"write": 0, "create": 0, "create_new": 0, "create_dir": 0, "copy": 1, "rename": 1, "hard_link": 1, "symlink": 1,
+                "remove_file": 0, "remove_dir": 0, "remove_dir_all": 0, "set_permissions": 0, "set_len": 0}
+        ELSEWHERE = {"temp_dir", "current_dir", "home_dir", "var", "var_os", "current_exe", "data_local_dir", "config_dir", "cache_dir"}
+        for bi, t in fs_calls:
+            m = method(t)
+            if m.startswith("{closure"):
+                continue
+            if m not in DEST or len(t["args"]) <= DEST[m] or "OpenOptions" in (t["f"].get("pretty") or ""):
+                continue            # (OpenOptions::create / write / append are builder flags; its open() is checked above)
+            dst = t["args"][DEST[m]]
+            roots = {last(norm(o[3] or o[2] or "")) for o in arg_roots(f, pv, dst) if o[0] == "call"}
+            key = "path:save_stats:%s" % (t["f"].get("pretty") or m)
+            if roots & ELSEWHERE:
+                ck.refuted(rule, key, f.loc(t["ln"]), "save_stats %ss a file whose path comes from %s, not from Config.stats_path: the statistics (which carry words of the checked documents) end up in a file outside the configured ones" % (m, sorted(roots & ELSEWHERE)))
+            elif _derives_from_field(f, pv, dst, "stats_path") or "stats_path" in _field_names(flatten(pv.trace_operand(dst))):
+                ck.proved(rule, key, f.loc(t["ln"]), "destination derives from Config.stats_path")
+            else:
+                ck.undecided(rule, key, f.loc(t["ln"]), "destination of %s not traced to Config.stats_path" % m)
     # save_dict is called only by the two dictionary writers, with the configured paths
     callers = {}
     for fn in p.fns.values():
